@@ -36,6 +36,19 @@ Definition v3_set_keys (s : v3sock) (user : bytes) (auth_alg : Z) (auth_key_m : 
   Ok {| engine_id := engine_id s; engine_boots := engine_boots s; engine_time := engine_time s; user_name := user;
         auth := a; privk := p; msg_id := msg_id s; request_id := request_id s |}.
 
+(* set_keys as a transition of the socket: `self.user_name = user_name` is the first statement and stays done when a later
+   step is refused; the two keys are replaced together and only when every step succeeded *)
+Definition with_user (s : v3sock) (user : bytes) : v3sock :=
+  {| engine_id := engine_id s; engine_boots := engine_boots s; engine_time := engine_time s; user_name := user;
+     auth := auth s; privk := privk s; msg_id := msg_id s; request_id := request_id s |}.
+Definition v3_set_keys_st (s : v3sock) (user : bytes) (auth_alg : Z) (auth_key_m : bytes) (priv_alg : Z) (priv_key_m : bytes)
+           (seed : Z) : v3sock * res unit :=
+  match v3_set_keys s user auth_alg auth_key_m priv_alg priv_key_m seed with
+  | Ok s' => (s', Ok tt)
+  | Err e => (with_user s user, Err e)
+  | Panic => (with_user s user, Panic)
+  end.
+
 (* push_pdu: encrypt (advances the salt), draw the message id, serialise, sign.  The socket state is updated
    as far as execution got, also when an error is returned. *)
 Definition with_priv_msgid (s : v3sock) (k : priv_key) (mid : Z) : v3sock :=
